@@ -267,6 +267,69 @@ pub fn c02_sub_large(tier: Tier) -> Box<dyn DynSub> {
     .slow()
     .boxed()
 }
+/// a near-maximum message that begins a little less / a little more than its own size before the end of what convert
+/// reads in one go (512 KiB): it is complete in the buffer only if the reader refills early enough (low-water mark >=
+/// the largest message). (window end - n, total size of the big message, filler size selector, messages behind)
+fn c02_refill_edge(v: &(u32, u32, u16, u8), rep: &mut Rep) -> Result<(), String> {
+    let (n, total, fsel, behind) = v;
+    const WINDOW: usize = 512 * 1024;
+    let plain = |i: usize, payload_len: usize| DltMessage {
+        index: i as u32,
+        reception_time_us: 1_600_000_000_000_000 + i as u64 * 1000,
+        ecu: adlt::dlt::DltChar4::from_buf(b"ECU1"),
+        timestamp_dms: 0,
+        standard_header: adlt::dlt::DltStandardHeader { htyp: 0x20, mcnt: i as u8, len: 0 },
+        extended_header: None,
+        payload: (0..payload_len).map(|k| ((k * 31 + i) % 251) as u8).collect(), // (no byte 0x01: no frame marker)
+        payload_text: None,
+        lifecycle: 0,
+    };
+    let mut msgs = vec![];
+    let mut remaining = WINDOW - *n as usize;
+    while remaining > 0 {
+        let mut size = std::cmp::min(remaining, 20 + (*fsel as usize * (msgs.len() + 3)) % 3000);
+        if remaining - size > 0 && remaining - size < 20 {
+            size = if size >= 40 { size - 20 } else { remaining };
+        }
+        if size < 20 || size > 65_551 {
+            return Err(format!("harness: filler size {}", size));
+        }
+        msgs.push(plain(msgs.len(), size - 20));
+        remaining -= size;
+    }
+    let big_at = msgs.len();
+    msgs.push(plain(big_at, *total as usize - 20));
+    for _ in 0..*behind {
+        msgs.push(plain(msgs.len(), 5));
+    }
+    // a second big message at whatever position the first one left the reader in
+    msgs.push(plain(msgs.len(), 65_551 - 20 - (*fsel as usize % 30)));
+    msgs.push(plain(msgs.len(), 7));
+    let sb = Sandbox::new("c02edge");
+    write_msgs(&sb.path("in.dlt"), &msgs)?;
+    run_convert(&["-o".into(), s(&sb.path("out.dlt")), s(&sb.path("in.dlt"))])?;
+    let b_in = std::fs::read(sb.path("in.dlt")).map_err(|e| e.to_string())?;
+    let b_out = std::fs::read(sb.path("out.dlt")).map_err(|e| format!("no output file: {}", e))?;
+    let out: Vec<DltMessage> = DltMessageIterator::new(0, std::io::Cursor::new(&b_out[..])).collect();
+    rep.label_if((*n as usize) < *total as usize && *n >= 60_000, "big_message_straddles_the_window_end");
+    rep.label_if(*n >= 65_536 && (*n as usize) < *total as usize, "begins_64k_to_its_size_before_the_end");
+    rep.nontrivial = (*n as usize) < *total as usize;
+    ensure_eq!(out.len(), msgs.len(), "messages in the exported file (big message #{} of {} bytes begins {} bytes before the first 512 KiB end)", big_at, total, n);
+    for (a, b) in msgs.iter().zip(out.iter()) {
+        same_content(a, b).map_err(|e| format!("exported message {} differs in {}", a.index, e))?;
+    }
+    ensure!(b_in == b_out, "export of a file in normal form is not byte identical");
+    Ok(())
+}
+pub fn c02_sub_edge(tier: Tier) -> Box<dyn DynSub> {
+    let total = prop_oneof![2 => Just(65_551u32), 2 => 65_521u32..=65_551, 1 => 60_000u32..=65_551];
+    let strat = total.prop_flat_map(|t| (prop_oneof![3 => (t - 40)..(t + 6), 2 => 65_530u32..65_560, 1 => 60_000u32..(t + 6), 1 => 20u32..70_000], Just(t), any::<u16>(), 0u8..12));
+    sub("binary_export_refill_edge", tier.pick(60, 1_500), strat, c02_refill_edge)
+        .rates(&[("big_message_straddles_the_window_end", 0.3), ("begins_64k_to_its_size_before_the_end", 0.15)])
+        .shrink_iters(40)
+        .slow()
+        .boxed()
+}
 pub fn c07_sub(tier: Tier) -> Box<dyn DynSub> {
     sub("binary_listing", tier.pick(300, 8_000), prop::collection::vec(ev(3), 1..120), c07_listing).rates(&[("ge3_lifecycles", 0.4)]).shrink_iters(100).slow().boxed()
 }
